@@ -136,8 +136,18 @@ pub fn rule_names(spec: &RuleSpec) -> (BTreeSet<String>, BTreeSet<String>) {
     (top, all)
 }
 
-fn unaddressed_variants(d: &MObj) -> Vec<MObj> {
+fn unaddressed_variants(d: &MObj, top: &BTreeSet<String>, all: &BTreeSet<String>) -> Vec<MObj> {
     let mut out = vec![];
+    // names the rule writes only below the top level are unaddressed at the top level
+    for name in all.iter().filter(|n| !top.contains(*n)) {
+        if d.getm(name).is_none() {
+            for v in [s("a"), s("x"), MVal::Int(1)] {
+                let mut x = d.clone();
+                x.set(name, v);
+                out.push(x);
+            }
+        }
+    }
     for (k, v) in [
         ("zz", s("a")),
         ("zz", MVal::Int(1)),
@@ -221,7 +231,7 @@ fn check_spec(spec: &RuleSpec, level: u8, doc_cap: usize) -> Stats {
             }
             drop(asked);
             // unaddressed fields never change the verdict
-            for d2 in unaddressed_variants(d) {
+            for d2 in unaddressed_variants(d, &top, &all) {
                 let v2 = eng::solve3(&det.expr, &det.ids, &d2).unwrap_or(2);
                 st.transitions += 1;
                 st.evaluations += 1;
